@@ -1,0 +1,13 @@
+//go:build verif
+
+package table
+
+// VerifReset replaces the whole table configuration.  Verification harness
+// only (build tag verif): lets one Table be reused across generated cases,
+// since a Table owns goroutines and a large bad-metrics buffer that are never
+// released.
+func (table *Table) VerifReset(config TableConfig) {
+	table.Lock()
+	defer table.Unlock()
+	table.config.Store(config)
+}
